@@ -81,7 +81,7 @@ LEVEL["C18"] = {
 }
 LEVEL["C20"] = {
     "text": "Lean theorems over a value model of Variant: host-type table and payload preservation (with the exact range for unsigned values and a kernel-checked counter-witness = known finding D30), growth with nulls and the pointwise specification of indexed writes, reflexivity/symmetry/array characterisation of Equals on float-free values. Copy-isolation is by construction in the value model and is what the differential run checks after every operation against a deep value model (no aliasing).",
-    "design_ref": "DESIGN.md 4/C20", "note": _NOTE + " Aliasing is not expressible in the value model; its absence is checked by execution only.", "technique": "Lean 4 proof (algebraic laws of a value model) + correspondence check detecting aliasing",
+    "design_ref": "DESIGN.md 4/C20", "note": _NOTE + " Aliasing is expressed in the pointer-level heap model (C20Heap.lean) which the operation stream is compared with.", "technique": "Lean 4 proof (value model laws + pointer-level heap model: invariant, isolation, refinement) + correspondence check",
 }
 
 LEVEL["C13"] = {
